@@ -108,9 +108,9 @@ def express(D, d, xs, S, rng, forms):
     for k in sorted(todo):
         form = rng.choice(forms)
         shadow = [int(b) for b, t in tags.items() if f"f{k}" in t]   # another node is tagged with this node's id
-        own = [t for t in tags.get(str(k), []) if t not in ("grp",) and not t.startswith("f")]
+        own = [t for t in tags.get(str(k), []) if t != "grp"]   # includes a tag that equals another node's id
         if form == "tag" and own:
-            out.append(own[0])
+            out.append(own[-1] if rng.random() < 0.6 else own[0])
         elif form == "ref":
             out.append(d.exec_nodes[f"f{k}"] if rng.random() < 0.5 else xs[k])
         elif not shadow:
